@@ -982,5 +982,9 @@ func generate(seed int64, n int) []*Case {
 	for i := 0; i < n*2/3; i++ {
 		res = append(res, fwdCase(r, n+n*5/2+1000+i))
 	}
+	// modelled stream 3: the Prometheus query endpoints (controller decisions, subquery steps), n/2 cases
+	for i := 0; i < n/2; i++ {
+		res = append(res, promCase(r, n+n*5/2+1000+n+i))
+	}
 	return res
 }
